@@ -159,7 +159,7 @@ theorem C08_foreign_sched_partial (s : Sys) (hs : s.WF) (ev : Event) (rej : Ref 
 def witnessSys : Sys :=
   (step (BertE.Drv.C01.initSys false false [.dev 4 (some 3), .dev 5 (some 1)]) (.extSet "feature/x" [1] false)).1
 
-def witnessEv : Event := .evalPr ⟨1, "feature/x", .dev 4 (some 3)⟩ .final [] []
+def witnessEv : Event := .evalPr ⟨1, "feature/x", .dev 4 (some 3), false⟩ .final [] []
 
 /-- **The prune race (finding D4).** The direct merge of the pull request is `push w/5.1/feature/x` then ONE
     `push --all --atomic --prune`. Somebody creates `feature/thirdparty` just before that second push: after the
